@@ -107,6 +107,12 @@ def gen_spec(rng, root, adversarial=False, dep_dir=None):
     if params and rng.random() < 0.3:
         labels["PLBL"] = "out.$(%s).dat" % rng.choice(list(params))
         env_tokens.append("PLBL")
+    if rng.random() < 0.25:
+        # a label built on the output path: `maestro run` replaces the path the
+        # specification wrote by the real (absolute / -o) one before anything is expanded
+        labels["OLBL"] = "$(OUTPUT_PATH)/shared"
+        variables["OUTPUT_PATH"] = "./studies/as_written"
+        env_tokens.append("OLBL")
     deps = {}
     if dep_dir and rng.random() < 0.4:
         deps = {"paths": [{"name": "DEP", "path": dep_dir}]}
